@@ -81,8 +81,6 @@ def c03_scenarios():
     if tier() == "thorough":
         s.append(scenario("mint-mint-mint", "C03", q, [m([8]), m([4, 4]), m([2, 2, 4])]))
         s.append(scenario("mint-mint-notify", "C03", q, [m([8]), m([4, 4]), {"op": "notify", "q": "mq1"}], post=PROBE + [m([2, 2, 4])]))
-        s.append(scenario("mint-mint-meltinternal", "C03", own, [m2([8]), m2([4, 4]), {"op": "melt", "q": "lq1", "ins": [{"p": "b1"}]}],
-                          post=PROBE + [m2([2, 2, 4]), m2([1, 1, 2, 4])]))
         s.append(scenario("mint-poll-notify", "C03", q, [m([8]), {"op": "pollmint", "q": "mq1"}, {"op": "notify", "q": "mq1"}],
                           post=PROBE + [m([4, 4])]))
     return s
